@@ -142,8 +142,8 @@ fn enum_history(seed: u64, h: u64) -> (Scenario, u64) {
     (sc, 0)
 }
 
-const ENUM_HISTORIES_QUICK: u64 = 40;
-const ENUM_HISTORIES_THOROUGH: u64 = 200;
+const ENUM_HISTORIES_QUICK: u64 = 300;
+const ENUM_HISTORIES_THOROUGH: u64 = 5000;
 const ENUM_SLOTS: u64 = 64; // (call position 1..=16) x (k 0..=3) per history
 
 impl Check for C02 {
@@ -160,7 +160,7 @@ impl Check for C02 {
         "E1 single-node engine: real KeyspaceGroup + keyspace actors + ConsistencyService handlers on a paused tokio runtime over SimStorage with a fault plan"
     }
     fn rule(&self) -> &'static str {
-        "Cases: (a) fault-position sweep: for fixed seeded request histories, every mutating storage call position 1..16 x every k in 0..3 (single call fails with no effect; bulk call applies exactly k documents, reports them, fails); (b) seeded histories of 3-30 set/multi_set/del/multi_del/batch/purge requests through the actor mailbox (both sources) or the ConsistencyService handlers, timestamps from 1-4 origins near 'now', hours old or in the future, bulk calls sharing one timestamp, sequential or in concurrent groups of 2-4 with storage latency, random fault plans. Oracle after every request group: Serialize reply (validated decode) lists live == store live rows and tombstones == store tombstone rows, per keyspace. Non-trivial = >= 3 requests and >= 2 storage writes. Distinct = hash of the storage-call trace and per-group set fingerprints."
+        "Cases: (a) fault-position sweep: for fixed seeded request histories, every mutating storage call position 1..16 x every k in 0..3 (single call fails with no effect; bulk call applies exactly k documents, reports them, fails); (b) seeded histories of 3-30 set/multi_set/del/multi_del/batch/purge requests through the actor mailbox (both sources) or the ConsistencyService handlers, timestamps from 1-4 origins near 'now', hours old or in the future, bulk calls sharing one timestamp, a fifth of the histories with bulk calls naming one id more than once (any timestamp order), sequential or in concurrent groups of 2-4 with storage latency, random fault plans. Oracle after every request group: Serialize reply (validated decode) lists live == store live rows and tombstones == store tombstone rows, per keyspace. Non-trivial = >= 3 requests and >= 2 storage writes. Distinct = hash of the storage-call trace and per-group set fingerprints."
     }
     fn assumptions(&self) -> Vec<String> {
         vec![
@@ -179,8 +179,8 @@ impl Check for C02 {
     }
     fn budget(&self, tier: Tier) -> Budget {
         match tier {
-            Tier::Quick => Budget { wall_secs: 40, max_cases: 12_000, checkpoint_every: 64, workers: 16 },
-            Tier::Thorough => Budget { wall_secs: 420, max_cases: 600_000, checkpoint_every: 64, workers: 16 },
+            Tier::Quick => Budget { wall_secs: 45, max_cases: 120_000, checkpoint_every: 64, workers: 16 },
+            Tier::Thorough => Budget { wall_secs: 900, max_cases: 6_000_000, checkpoint_every: 64, workers: 16 },
         }
     }
     fn generate(&self, seed: u64, idx: u64, tier: Tier) -> Value {
@@ -201,7 +201,7 @@ impl Check for C02 {
             ids: rng.gen_range(1..=6),
             origins: rng.gen_range(1..=4),
             base_ms: rng.gen_range(1_000_000_000u64..60_000_000_000) / 4 * 4,
-            dup_ids: false,
+            dup_ids: rng.gen_bool(0.2),
             allow_purge: rng.gen_bool(0.5),
             spread_hours: rng.gen_bool(0.6),
         };
